@@ -16,7 +16,8 @@ META = {
                   "version-rule, parse-keeps-content and no-growth invariants exhaustively for every subset of optional chunks x 6 versions x "
                   "sub-chunk subsets x 2 rebuild rounds (as-coded, ideal and pre-fix configurations; each repaired defect is a deviation that "
                   "must violate its invariant). Stage B: TLC enumerates tile shapes (deterministic slices incl. the full MH2O layer product + "
-                  "seeded draws). Stage C: the driver builds them through the public AdtBuilder API and an independent chunk walker reads every "
+                  "seeded draws; dimensions incl. duplicate-name patterns, value classes (degenerate / zero / extreme), placement field classes, "
+                  "both public rebuild routes). Stage C: the driver builds them through the public AdtBuilder API and an independent chunk walker reads every "
                   "produced file (rounds 0..4). Stage D, decided by TLC on logged integers: framing tiles the file and every MCNK payload; every "
                   "MHDR / MCIN / MCNK ofs_* entry points at a chunk header with the named tag (and is non-zero when the chunk exists); MCIN sizes; "
                   "MMID / MWID entries = start offsets of the names in MMDX / MWMO; write_to_file onto an absent / shorter / longer path = "
@@ -38,7 +39,7 @@ META = {
 
 VERS = ["VanillaEarly", "VanillaLate", "TBC", "WotLK", "Cataclysm", "MoP"]
 SHAPE_KEYS = ["ver", "ntex", "nmdl", "nwmo", "nddf", "nmodf", "dtex", "dmdl", "dwmo", "mcnk", "where", "mcvt", "mcnr", "nly", "mcrf", "mcal", "mcsh",
-              "mclq", "mccv", "mcse", "mclv", "water", "wlay", "wbase", "mfbo", "mtxf", "mamp", "mtxp", "bmesh"]
+              "mclq", "mccv", "mcse", "mclv", "water", "wlay", "wbase", "mfbo", "mtxf", "mamp", "mtxp", "bmesh", "vals", "pcls", "pbit", "route"]
 
 
 def sig(b):
@@ -129,8 +130,9 @@ def run(ctx, cases_override=None):
         "tiles_through_all_4_rebuild_rounds": full,
         "evaluations": res["events"] - res["traces"],
         "distinct_nontrivial": nontrivial,
-        "rule": "distinct_nontrivial = number of distinct Reset shapes (29 class attributes) of this run in which at least one of nmdl, nwmo, "
-                "mcrf, mcal, mcsh, mclq, mccv, mcse, mclv, water, mfbo, mtxf, mamp, mtxp, bmesh, dtex, dmdl, dwmo is not its default (0 / false / none); "
+        "rule": "distinct_nontrivial = number of distinct Reset shapes (33 class attributes) of this run in which at least one of nmdl, nwmo, "
+                "mcrf, mcal, mcsh, mclq, mccv, mcse, mclv, water, mfbo, mtxf, mamp, mtxp, bmesh, dtex, dmdl, dwmo is not its default (0 / false / none) "
+                "(vals / pcls / route alone do not make a shape non-trivial); "
                 "evaluations = recorded events other than Reset (Build, File with the full walker observation, Parse with 29 section tokens, Write with the file contents, "
                 "Rebuild), each judged by TLC; traces = Reset-delimited tiles; exhaustive is false: stage B is a reduced product of a ~10^10 "
                 "shape space",
